@@ -185,9 +185,7 @@ Qed.
 (* ---- whole sessions *)
 (* what one packet event contributes, and whether it empties the open frame first *)
 Definition ev_is_msop (b stale : bytes) : bool :=
-  let b0 := match b with x :: _ => x | [] => u8 stale 0 end in
-  let b1 := match b with _ :: y :: _ => y | _ => u8 stale 1 end in
-  (b0 =? 85) && (b1 =? 170).
+  (fst (dispatch_bytes b) =? 85) && (snd (dispatch_bytes b) =? 170).
 
 Lemma process_packet_conservation bl tbl v th now host b stale :
   let r := process_packet bl tbl v th now host b stale in
